@@ -72,7 +72,7 @@ def values_for(rng, name, shape, spread):
         if dt.itemsize > 2:
             lo, hi = (0 if dt.kind == "u" else -2 ** 20), 2 ** 24
     else:
-        lo, hi = -2 ** 20, 2 ** 24
+        lo, hi = -2 ** 24, 2 ** 24      # both ends of the stated range are exactly representable in float32
     if spread == "narrow":
         lo, hi = max(lo, 0), min(hi, 100)
     if spread == "lifted":
